@@ -110,3 +110,14 @@ def hash_id(I, args, fr):
     if isinstance(v, VFunc):
         return VInt({"_hashlib.openssl_sha1": 1, "_hashlib.openssl_md5": 2}.get(v.qualname, 0))
     return VInt(0)
+
+
+@specfuns.register("same_handler")
+def same_handler(I, args, fr):
+    """identity of two optional callables"""
+    from pyvc.values import VNone
+    a, b = args
+    if isinstance(a, VNone) or isinstance(b, VNone):
+        return VBool(isinstance(a, VNone) and isinstance(b, VNone))
+    r = I.identical(a, b)
+    return VBool(r)
